@@ -5,6 +5,7 @@ import (
 	"go/constant"
 	"go/token"
 	"go/types"
+	"sort"
 	"strings"
 	"sync"
 
@@ -748,7 +749,18 @@ func (e *Engine) concretize(t *smt.Term, signed bool, lo, hi int, what string) i
 		return c
 	}
 	if hi-lo > 4096 {
-		e.unsupported("concretisation range too large for %s", what)
+		// wide range (e.g. a slice of a 64 KiB receive buffer): enumerate the feasible values
+		// with the solver instead of probing every candidate; the sorted set makes the
+		// decision numbering the same on every re-execution
+		vals := e.feasibleValues(t, signed, lo, hi, 256, what)
+		conds := make([]*smt.Term, 0, len(vals))
+		for _, k := range vals {
+			conds = append(conds, e.ctx.Eq(t, e.ctx.BV(uint64(int64(k)), t.W)))
+		}
+		if len(conds) == 0 {
+			panic(abortPath{kind: "infeasible"})
+		}
+		return vals[e.choose(conds, true)]
 	}
 	conds := make([]*smt.Term, 0, hi-lo+1)
 	for k := lo; k <= hi; k++ {
@@ -756,6 +768,38 @@ func (e *Engine) concretize(t *smt.Term, signed bool, lo, hi int, what string) i
 	}
 	// caller has established lo <= t <= hi, so the split is exhaustive
 	return lo + e.choose(conds, true)
+}
+
+// feasibleValues enumerates all values of t (within [lo,hi]) that the path condition
+// allows, by repeated solver queries; more than max values = unsupported.
+func (e *Engine) feasibleValues(t *smt.Term, signed bool, lo, hi, max int, what string) []int {
+	var vals []int
+	excl := e.ctx.True
+	for {
+		r, m := e.sol.Check(e.pc, excl, e.ndTerms, true)
+		if r == smt.Unsat {
+			break
+		}
+		if r != smt.Sat || m == nil {
+			e.unsupported("enumerating feasible values for %s: solver unknown", what)
+		}
+		raw := e.ctx.Eval(t, m, map[int]uint64{})
+		v := int(raw)
+		if signed {
+			sh := uint(64 - t.W)
+			v = int(int64(raw<<sh) >> sh)
+		}
+		if v < lo || v > hi {
+			e.unsupported("enumerating feasible values for %s: model value %d outside [%d,%d]", what, v, lo, hi)
+		}
+		vals = append(vals, v)
+		if len(vals) > max {
+			e.unsupported("concretisation range too large for %s (more than %d feasible values)", what, max)
+		}
+		excl = e.ctx.And(excl, e.ctx.Not(e.ctx.Eq(t, e.ctx.BV(uint64(int64(v)), t.W))))
+	}
+	sort.Ints(vals)
+	return vals
 }
 
 func (e *Engine) sliceOp(f *frame, x *ssa.Slice) Value {
